@@ -1221,6 +1221,14 @@ class PyFat(object):
             tmp_val2 = tmp_val2 // 2
         self._fat_size = \
             math.ceil((tmp_val1 + tmp_val2 - 1) // tmp_val2 / sector_size)
+        # The approximation can come out one sector short of the clusters
+        # the volume ends up with, every cluster needs a FAT entry
+        fat_entries = self._fat_size * sector_size * 8 // fat_type
+        clusters = (num_sec - (rsvd_sec_cnt + self.root_dir_sectors +
+                               number_of_fats * self._fat_size)) // \
+            max(sec_per_clus, 1)
+        if fat_entries < clusters + 2:
+            self._fat_size = self._fat_size + 1
         if fat_type == PyFat.FAT_TYPE_FAT32:
             fat_size_16 = 0
             fat_size_32 = self._fat_size
